@@ -39,11 +39,11 @@ use std::{
     fmt::Display,
     hash::Hash,
     ops::Deref,
-    sync::{Arc, Weak},
+    sync::{Arc, PoisonError, Weak},
 };
 
 #[cfg(not(gdsl_verif))]
-use std::sync::RwLock;
+use std::sync::{Mutex, MutexGuard, RwLock};
 #[cfg(gdsl_verif)]
 use crate::verif::RwLock;
 
@@ -54,6 +54,20 @@ use self::{
 
 /// An edge between nodes is a tuple struct `Edge(u, v, e)` where `u` is the
 /// source node, `v` is the target node, and `e` is the edge's value.
+/// The calls that update the adjacency lists of more than one node
+/// (`connect`, `try_connect`, `disconnect`, `isolate`) take this lock for their
+/// whole duration. Each of them locks the nodes involved one after the other,
+/// so without it two threads could interleave between those steps: an edge
+/// ended up listed at one endpoint only, parallel edges were listed in
+/// different orders at their two endpoints, `try_connect` succeeded twice and
+/// `isolate` panicked on an entry another thread had just removed. Readers
+/// (queries, iterators, searches) never take it.
+static MUTATION: Mutex<()> = Mutex::new(());
+
+fn mutation_guard() -> MutexGuard<'static, ()> {
+    MUTATION.lock().unwrap_or_else(PoisonError::into_inner)
+}
+
 #[derive(Clone)]
 pub struct Edge<K, N, E>(pub Node<K, N, E>, pub Node<K, N, E>, pub E)
 where
@@ -263,6 +277,12 @@ where
     /// assert!(n1.is_connected(n2.key()));
     /// ```
     pub fn connect(&self, other: &Self, value: E) {
+        let _mutation = mutation_guard();
+        self.connect_locked(other, value);
+    }
+
+    /// `connect` for callers that already hold the mutation lock.
+    fn connect_locked(&self, other: &Self, value: E) {
         self.inner
             .2
             .write()
@@ -301,10 +321,11 @@ where
     /// }
     /// ```
     pub fn try_connect(&self, other: &Node<K, N, E>, value: E) -> Result<(), Error> {
+        let _mutation = mutation_guard();
         if self.is_connected(other.key()) {
             Err(Error::EdgeAlreadyExists)
         } else {
-            self.connect(other, value);
+            self.connect_locked(other, value);
             Ok(())
         }
     }
@@ -332,6 +353,7 @@ where
     /// assert!(!n1.is_connected(n2.key()));
     /// ```
     pub fn disconnect(&self, other: &K) -> Result<E, Error> {
+        let _mutation = mutation_guard();
         match self.find_adjacent(other) {
             Some(other) => {
                 // The edge is stored at both endpoints: as an inbound entry
@@ -383,6 +405,7 @@ where
     /// assert!(n1.is_orphan());
     /// ```
     pub fn isolate(&self) {
+        let _mutation = mutation_guard();
         for Edge(_, v, _) in self.iter() {
             if v.inner
                 .2
